@@ -148,11 +148,12 @@ func (c *liteCtl) record(m *bft.Message) {
 		k := roundKey(h)
 		ri := c.s.Rounds[k]
 		if ri == nil {
-			ri = &RoundInfo{Key: k, Selected: map[int]int{}, FirstSeen: c.s.Now}
+			ri = &RoundInfo{Key: k, Selected: map[int]int{}, At: map[int]int64{}, FirstSeen: c.s.Now, Round: h.Round}
 			c.s.Rounds[k] = ri
 			c.s.RoundOrder = append(c.s.RoundOrder, ri)
 		}
 		ri.Selected[c.r.Idx] = c.s.indexOf(m.Qc.ProposerKey)
+		ri.At[c.r.Idx] = c.s.Now
 	}
 	k := ViewKey(h)
 	p := crypto.HashString(m.SignBytes())
